@@ -414,7 +414,9 @@ func checkRejectedNssai(c *listCtx) {
 	if fn == nil {
 		return
 	}
-	shapes := [][2][]bool{{{false}, {}}, {{}, {true}}, {{true, false}, {true}}, {{false, true, true}, {false, false}}}
+	shapes := [][2][]bool{{{false}, {}}, {{}, {true}}, {{true, false}, {true}}, {{false, true, true}, {false, false}},
+		// the maximum: eight rejected S-NSSAIs (TS 24.501 9.11.3.46), all with an SD (40 octets), none with one (16 octets)
+		{{true, true, true, true, true}, {true, true, true}}, {{false, false, false, false}, {false, false, false, false}}, {{true, true, true, true, true, true, true, true}, {}}}
 	for _, sh := range shapes {
 		c.r.Site("lay.rejected-nssai")
 		it := newListInterp(c.w)
@@ -734,10 +736,10 @@ func propC13(w *World, r *Report, tier string) {
 		r.Expect("lay.snssai", 4)
 		r.Expect("dec.snssai", 266)
 		r.Expect("walk.nssai", 20)
-		r.Expect("lay.rejected-nssai", 4)
+		r.Expect("lay.rejected-nssai", 7)
 		r.Expect("lay.tai-list", 10)
 		r.Expect("lay.service-area", 10)
-		r.Expect("dec.tai-list", 11)
+		r.Expect("dec.tai-list", 14)
 		r.Expect("dec.service-area", 6)
 		r.Expect("lay.ladn", 12)
 		r.Expect("walk.ladn", 6)
